@@ -111,7 +111,6 @@ SpecSat(con, col) ==
 
 \* corners the documentation fixes (everything else is compared with the transcription only)
 Demanded(con, col) ==
-    /\ ~(col.t = "missing" /\ con.isnull)
     /\ (col.t # "missing" /\ ~con.isnull) =>
         CASE con.k \in {"min", "max"} -> /\ col.t \in {"int", "real", "bool", "date"}
                                          /\ (col.t = "date" => con.prec # "open")
